@@ -146,6 +146,7 @@ func runFault(w *vt.W, id, cs, np int, conc bool, site string, k int, ac bool) {
 	}
 	got, sorted, last := 0, true, -1
 	seen := map[int]bool{}
+	drained := false // Pull was called until it returned io.EOF (failed calls in between included)
 	if finalised {
 		for n := 0; n < np+4; n++ {
 			if site == "clearremove" && n == k%np {
@@ -169,6 +170,7 @@ func runFault(w *vt.W, id, cs, np int, conc bool, site string, k int, ac bool) {
 				return m.Pull(&v)
 			})
 			if es == "EOF" {
+				drained = true
 				break
 			}
 			if es != "" {
@@ -188,6 +190,13 @@ func runFault(w *vt.W, id, cs, np int, conc bool, site string, k int, ac bool) {
 	wasInjected := injected
 	hookMu.Unlock()
 	complete := finalised && sorted && got == np && pushed == np
+	// residue clause, AutoClear half: a drain with AutoClear set leaves no run files, whatever failed on the way
+	runsLeft := 0
+	if drained && ac {
+		if fis, err := ioutil.ReadDir(mdir); err == nil {
+			runsLeft = len(fis)
+		}
+	}
 	// epilogue (residue clause of C13): whatever went wrong before, after CleanUp the directory is gone;
 	// sometimes a Clear comes first, and for site "clearremove" a run file has been deleted under it so
 	// that this Clear fails half way
@@ -214,5 +223,6 @@ func runFault(w *vt.W, id, cs, np int, conc bool, site string, k int, ac bool) {
 	_, statErr := os.Stat(mdir)
 	w.Emit(vt.Ev{"op": "faultrun", "id": id, "cs": cs, "npush": np, "conc": conc, "site": site, "k": k,
 		"injected": wasInjected, "reported": reported, "pulled": got, "complete": complete,
-		"clearerr": clearErr, "clearinjected": clearInjected, "nofile": noFile, "cleanuperr": cleanErr, "dirleft": statErr == nil})
+		"clearerr": clearErr, "clearinjected": clearInjected, "nofile": noFile, "cleanuperr": cleanErr, "dirleft": statErr == nil,
+		"ac": ac, "drained": drained, "runsleft": runsLeft})
 }
